@@ -273,7 +273,16 @@ pub fn reference(
         }
         let check_types = include_types && is_checkable(o, m.specifier(), m.media_type());
         let deps = if check_types && o.prefer_fast_check {
-          m.dependencies_prefer_fast_check()
+          // from the fields, not through Module::dependencies_prefer_fast_check():
+          // a JS module that carries a fast-check module contributes that
+          // module's dependencies, every other module its own
+          match m {
+            deno_graph::Module::Js(js) => match &js.fast_check {
+              Some(deno_graph::FastCheckTypeModuleSlot::Module(fc)) => &fc.dependencies,
+              _ => &js.dependencies,
+            },
+            other => other.dependencies(),
+          }
         } else {
           m.dependencies()
         };
